@@ -387,9 +387,35 @@ func (e *Engine) info(fn *ssa.Function) *fnInfo {
 				if isCmp(x.Op) && e.reach[fn] {
 					for _, pr := range [][2]ssa.Value{{x.X, x.Y}, {x.Y, x.X}} {
 						ph, isPhi := pr[0].(*ssa.Phi)
+						if add, isAdd := pr[0].(*ssa.BinOp); isAdd && add.Op == token.ADD && !isPhi {
+							// the range index: t = phi + 1; t < len
+							if _, isC := add.Y.(*ssa.Const); isC {
+								ph, isPhi = add.X.(*ssa.Phi)
+							}
+						}
 						k, isK := pr[1].(*ssa.Const)
 						if isPhi && isK && isPlainInt(ph.Type()) && ssaIntConst(k) && k.Int64() >= 0 && k.Int64() <= 8 && counterPhi(ph) {
 							mark(ph, 0)
+						}
+						// ... or iterates over a list of delimiters handed in by the caller (ends ...[]byte): at the call sites
+						// the list is a literal of a few constant byte sequences
+						if lc, isCall := pr[1].(*ssa.Call); isCall && isPhi && isPlainInt(ph.Type()) && counterPhi(ph) {
+							if bi, isB := lc.Call.Value.(*ssa.Builtin); isB && bi.Name() == "len" && len(lc.Call.Args) == 1 {
+								if prm, isP := lc.Call.Args[0].(*ssa.Parameter); isP {
+									if sl, isSl := prm.Type().Underlying().(*types.Slice); isSl {
+										switch el := sl.Elem().Underlying().(type) {
+										case *types.Slice:
+											if isByteType(el.Elem()) {
+												mark(ph, 0)
+											}
+										case *types.Basic:
+											if el.Info()&types.IsString != 0 {
+												mark(ph, 0)
+											}
+										}
+									}
+								}
+							}
 						}
 					}
 				}
@@ -558,7 +584,25 @@ func (e *Engine) run(fn *ssa.Function, entry *State, args []AbsVal) []exitState 
 			in[b] = m
 			slots[b] = map[string]int{}
 		}
-		if !fi.isHeader[b] {
+		unrolled := false
+		if fi.isHeader[b] {
+			// a loop that is being unrolled on its small constant counter (range over a constant table): its iterations
+			// are separate program points already, and keep the same bounded disjunction as straight-line code
+			for _, ins := range b.Instrs {
+				phi, ok := ins.(*ssa.Phi)
+				if !ok {
+					break
+				}
+				if fi.relInt[phi] && isPlainInt(phi.Type()) && counterPhi(phi) {
+					if pv, has := s.getv(phi); has {
+						if _, isC := pv.constInt(); isC {
+							unrolled = true
+						}
+					}
+				}
+			}
+		}
+		if !fi.isHeader[b] || unrolled {
 			// bounded disjunction: states that know different things about the next bytes stay apart
 			k2 := fmt.Sprintf("%s|%x|%x", key, s.byteAt(0), s.byteAt(1))
 			dcap := disjunctCap
@@ -1159,6 +1203,9 @@ func (e *Engine) execBlock(fi *fnInfo, b *ssa.BasicBlock, start int, st *State,
 			return
 		case ssa.Value:
 			v := e.compute(fi, st, in)
+			if engTrace != "" && strings.Contains(fnLabel(fi.fn), engTrace) {
+				fmt.Fprintf(os.Stderr, "    %s = %s\n", in.Name(), v)
+			}
 			if v.k == vTop {
 				delete(st.vals, in)
 			} else {
@@ -1364,6 +1411,11 @@ func (e *Engine) compute(fi *fnInfo, st *State, in ssa.Value) AbsVal {
 		}
 		if sv := e.eval(st, x.X); sv.k == vStrSet {
 			return strSetByte(sv, e.eval(st, x.Index))
+		} else if sv.k == vLit && sv.field < 0 && sv.lit != nil {
+			// a row of a constant table held by value (for _, row := range table over an array)
+			if c, ok := e.eval(st, x.Index).constInt(); ok && c >= 0 && int(c) < len(sv.lit.Elems) && sv.lit.Elems[c] != nil {
+				return AbsVal{k: vLit, lit: sv.lit.Elems[c], field: -1}
+			}
 		}
 		return top
 	case *ssa.Slice:
